@@ -11,6 +11,7 @@ package c13
 import (
 	"encoding/json"
 	"fmt"
+	"reflect"
 	"strings"
 
 	ap "github.com/go-ap/activitypub"
@@ -197,9 +198,58 @@ func makePool(t *core.Tape, n int, rich bool) []poolItem {
 		case 6:
 			it, shape = g.Struct(gen.KindByName("Activity"), 1, false).Elem().Interface().(ap.Item), "Activity"
 		}
+		// near-duplicate ids: distinct identities that differ from an earlier pool id only in a
+		// part IRI equality must respect - the query string, the port, one more path segment
+		if i > 0 && t.Bool(1, 4) {
+			base := pool[t.Draw(len(pool))].id
+			if j := strings.IndexAny(base, "?#"); j >= 0 {
+				base = base[:j]
+			}
+			variant := ""
+			switch t.Draw(4) {
+			case 0:
+				variant = base + "?page=" + fmt.Sprint(10+i)
+			case 1:
+				variant = base + "/" + fmt.Sprint(100+i)
+			case 2:
+				variant = base + "?first=" + fmt.Sprint(10+i) + "&page=1"
+			default:
+				// another port on the same host
+				if k := strings.Index(base, "://"); k > 0 {
+					rest := base[k+3:]
+					if sl := strings.Index(rest, "/"); sl > 0 && !strings.Contains(rest[:sl], ":") {
+						variant = base[:k+3] + rest[:sl] + ":" + fmt.Sprint(9000+i) + rest[sl:]
+					}
+				}
+			}
+			if variant != "" {
+				it = withID(it, ap.IRI(variant))
+				shape += "~"
+			}
+		}
 		pool = append(pool, poolItem{it: it, id: string(it.GetLink()), shape: shape})
 	}
 	return pool
+}
+
+// withID returns the item with another id (same shape, same form).
+func withID(it ap.Item, id ap.IRI) ap.Item {
+	if _, ok := it.(ap.IRI); ok {
+		return id
+	}
+	rv := reflect.ValueOf(it)
+	if rv.Kind() == reflect.Pointer {
+		if f := rv.Elem().FieldByName("ID"); f.IsValid() && f.CanSet() {
+			f.Set(reflect.ValueOf(id))
+		}
+		return it
+	}
+	cp := reflect.New(rv.Type()).Elem()
+	cp.Set(rv)
+	if f := cp.FieldByName("ID"); f.IsValid() && f.CanSet() {
+		f.Set(reflect.ValueOf(id))
+	}
+	return cp.Interface().(ap.Item)
 }
 
 // verify evaluates the cross-invariants after a step.
